@@ -214,7 +214,7 @@ func (s *Service) attestationData(ctx context.Context,
 	}
 }
 
-func (*Service) attestationDataLoop1(ctx context.Context,
+func (s *Service) attestationDataLoop1(ctx context.Context,
 	started time.Time,
 	requests int,
 	attestationDataResponses map[phase0.Root][]*attestationDataResponse,
@@ -232,9 +232,10 @@ func (*Service) attestationDataLoop1(ctx context.Context,
 	responded := 0
 	errored := 0
 	largestCount := 0
-	strictMajority := requests/2 + 1
+	// A strict majority only ends the collection early if it also meets the threshold.
+	earlyStopCount := max(requests/2+1, s.threshold)
 
-	for responded+errored != requests && largestCount < strictMajority {
+	for responded+errored != requests && largestCount < earlyStopCount {
 		select {
 		case resp := <-respCh:
 			responded++
@@ -282,7 +283,7 @@ func (*Service) attestationDataLoop1(ctx context.Context,
 	return responded, errored
 }
 
-func (*Service) attestationDataLoop2(ctx context.Context,
+func (s *Service) attestationDataLoop2(ctx context.Context,
 	started time.Time,
 	requests int,
 	attestationDataResponses map[phase0.Root][]*attestationDataResponse,
@@ -301,9 +302,10 @@ func (*Service) attestationDataLoop2(ctx context.Context,
 			largestCount = v
 		}
 	}
-	strictMajority := requests/2 + 1
+	// A strict majority only ends the collection early if it also meets the threshold.
+	earlyStopCount := max(requests/2+1, s.threshold)
 
-	for responded+errored != requests && largestCount < strictMajority {
+	for responded+errored != requests && largestCount < earlyStopCount {
 		select {
 		case resp := <-respCh:
 			responded++
